@@ -51,6 +51,7 @@ type CScenario struct {
 	Prefix     string      `json:"prefix,omitempty"`
 	Override   bool        `json:"override,omitempty"`
 	CustomNF   bool        `json:"custom_nf,omitempty"`
+	SharedResp bool        `json:"shared_resp,omitempty"`
 }
 
 type CRecord struct {
